@@ -98,6 +98,7 @@ fn main() {
                 "graph-exh" => scen_graph::run_exhaustive(if tier == "thorough" { 4 } else { 3 }, &mut out),
                 "topo" => scen_topo::run(seed, tier, &mut out),
                 "parse" => scen_parse::run(seed, tier, &mut out),
+                "parsebound" => scen_parse::run_parsebound(seed, tier, &mut out),
                 "roundtrip" => scen_parse::run_rt(seed, tier, &mut out),
                 "fsweep" => scen_parse::run_fsweep(tier, &mut out),
                 "loops" => scen_loops::run(seed, tier, &mut out),
